@@ -64,14 +64,17 @@ class Run:
         self.dist[k] = self.dist.get(k, 0) + n
 
     # ---- one fit-sequence scenario: real vs documented behaviour, plus the Coq case
-    def fitseq(self, name, table, calls, st, sv, valid_on=True, ops_rng=None, with_coq=True, regress_key=None, cscripts=None):
+    def fitseq(self, name, table, calls, st, sv, valid_on=True, ops_rng=None, with_coq=True, regress_key=None, cscripts=None, dag=None):
         """regress_key: the scenario replays a repaired (status "fixed") finding; a disagreement about the
         firing epochs is reported under that key (a fixed entry suppresses nothing: it is a VIOLATION)."""
         ck = self.ck
-        real, gfinal, err = E.run_real(self.ctx, table, calls, st, sv, valid_on, ops_rng, cscripts)
+        real, gfinal, err = E.run_real(self.ctx, table, calls, st, sv, valid_on, ops_rng, cscripts, dag)
         exp, gexp = E.doc_sim(table, calls, st, sv, valid_on, cscripts)
         inp = {'scenario': 'fitseq', 'custom_metrics': {k: [list(a), list(b)] for k, (a, b) in (cscripts or {}).items()}, 'name': name, 'table': jsonable(E.describe(table)), 'calls': jsonable(calls),
                'train_losses': list(st), 'valid_losses': list(sv), 'valid_on': valid_on}
+        if dag is not None:
+            inp['dag'] = jsonable(dag)
+            inp['dag_as_python'] = T.dag_show(dag)
         label = f'{name}#{len(self.cases)}'
         nrec = sum(len(r) for r in (real or []))
         ck.traces += nrec * max(1, len(table))
@@ -372,6 +375,82 @@ def regressions_repeated(run, r, n_random):
         run.fitseq('below-above', table, calls, st, sv, True, None, regress_key=KNOWN_BA, cscripts=custom_scripts(r, calls, 0, 4))
 
 
+def gen_dag(r, dist):
+    """Leaves, then one or two intermediate compounds, each REUSED by 2-3 larger expressions (same or different operator,
+    either operand position), some of these reused again; actions on the users, on the shared compounds themselves and
+    on a shared leaf, attached before or after the reuse."""
+    nodes, roots = [], []
+    n_leaves = r.randint(4, 6)
+    for _ in range(n_leaves):
+        nodes.append(['leaf', rep_leaf(r, dist) if r.random() < 0.2 else T.gen_leaf(r, dist)])
+    leaves = list(range(n_leaves))
+    ops = ['And', 'Or', 'Xor']
+    for _ in range(r.randint(1, 2)):
+        op = r.choice(['And', 'And', 'Or', 'Or', 'Xor'])
+        a, b = r.sample(leaves, 2)
+        nodes.append(['op', op, a, b])
+        base = len(nodes) - 1
+        if r.random() < 0.3:                                   # a chain written in one go on top of it: base = a & b & c
+            nodes.append(['op', op, base, r.choice(leaves)])
+            base = len(nodes) - 1
+        when_base = r.choice(['early', 'late', 'late', None])
+        if when_base == 'early':
+            roots.append([base, 'early'])
+        users = []
+        for _ in range(r.randint(2, 3)):
+            uop = op if r.random() < 0.7 else r.choice(ops)
+            x = r.choice(leaves)
+            nodes.append(['op', uop, base, x] if r.random() < 0.7 else ['op', uop, x, base])
+            users.append(len(nodes) - 1)
+            dist['dag_user_' + ('same' if uop == op else 'other') + '_op'] = dist.get('dag_user_' + ('same' if uop == op else 'other') + '_op', 0) + 1
+        if r.random() < 0.4:                                   # second level: a user is reused as well
+            u = r.choice(users)
+            for _ in range(2):
+                nodes.append(['op', nodes[u][1], u, r.choice(leaves)])
+                users.append(len(nodes) - 1)
+        if r.random() < 0.3:
+            nodes.append(['not', base])
+            users.append(len(nodes) - 1)
+        for u in users:
+            roots.append([u, r.choice(['early', 'late'])])
+        if when_base == 'late':
+            roots.append([base, 'late'])
+    roots.append([r.choice(leaves), r.choice(['early', 'late'])])            # a shared leaf with its own action
+    seen, uniq = set(), []
+    for node, when in roots:
+        if node not in seen:
+            seen.add(node)
+            uniq.append([node, when])
+    return {'nodes': nodes, 'roots': uniq}
+
+
+def run_dag(run, r, name, dag, calls=None, coq=True):
+    table = [{'tree': T.dag_tree(dag, node), 'act': ('rec',)} for node, _ in dag['roots']]
+    if calls is None:
+        calls = gen_calls(r, len(table))
+    st, sv = scripts(r, calls, 0, 3)
+    return run.fitseq(name, table, calls, st, sv, True, None, with_coq=coq, cscripts=custom_scripts(r, calls, 0, 3), dag=dag)
+
+
+def dag_mass(run, r, n_runs, coq=True):
+    """Shared sub-expressions: an intermediate compound bound once and reused in several larger expressions must mean the
+    same in each of them and on its own (the operators build NEW nodes and leave their operands alone)."""
+    ck = run.ck
+    # the two reuse patterns spelled out: base = a & b; c1 = base & x; c2 = base & y   (and the same with |)
+    for op, leafs in (('And', [('PL', 2, 0), ('IL', 4, None), ('LL',), ('IL', None, 8)]),
+                      ('Or', [('FL',), ('LL',), ('PL', 5, 0), ('IL', 3, 3)])):
+        for when in ('late', 'early'):
+            dag = {'nodes': [['leaf', l] for l in leafs] + [['op', op, 0, 1], ['op', op, 4, 2], ['op', op, 4, 3]],
+                   'roots': [[5, when], [6, when], [4, 'late']]}
+            run_dag(run, r, 'shared-subexpression', dag, calls=[(10, [True] * 3), (3, [True] * 3)], coq=coq)
+    for ri in range(n_runs):
+        dag = gen_dag(r, run.dist)
+        run.count('dag_nodes', len(dag['nodes']))
+        real = run_dag(run, r, 'shared-subexpression', dag, coq=coq)
+        if real is not None and ri < 1:
+            ck.sample({'kind': 'expression DAG with shared sub-expressions under fit()', 'dag': T.dag_show(dag), 'observed_first_call': real[0][:2] if real else []})
+
+
 def custom_metric_key(run):
     """Regression probe of the repaired finding metric-name/custom-metric-KeyError (status fixed, commit 98a9d3c):
     its recorded input is replayed on every run; a KeyError is reported under the recorded key (a VIOLATION)."""
@@ -663,7 +742,10 @@ def replay(ck, run, path):
     calls = [(mx, list(mask)) for mx, mask in inp['calls']]
     name = inp.get('name', 'replay')
     cs = {k: (a, b) for k, (a, b) in (inp.get('custom_metrics') or {}).items()} or None
-    run.fitseq(name, table, calls, inp['train_losses'], inp['valid_losses'], inp['valid_on'], None, with_coq=True, regress_key=REGRESS.get(name), cscripts=cs)
+    dag = inp.get('dag')
+    if dag is not None:
+        dag = {'nodes': [[n[0], tree_from_json(n[1])] if n[0] == 'leaf' else n for n in dag['nodes']], 'roots': dag['roots']}
+    run.fitseq(name, table, calls, inp['train_losses'], inp['valid_losses'], inp['valid_on'], None, with_coq=True, regress_key=REGRESS.get(name), cscripts=cs, dag=dag)
     run.settle()
     return True
 
@@ -712,6 +794,7 @@ def main():
     timed('optimizer_params', optimizer_params, run, ck.rng('opt'))
     timed('eve', eve, run, ck.rng('eve'), 800 if th else 80, 24 if th else 6)
     timed('repeated', repeated_mass, run, ck.rng('repeated'), 500 if th else 60)
+    timed('shared_subexpressions', dag_mass, run, ck.rng('dag'), 150 if th else 30)
     timed('regressions_repeated', regressions_repeated, run, ck.rng('known'), 60 if th else 8)
     timed('custom_metric', custom_metric_key, run)
     timed('misc', misc, run)
@@ -727,6 +810,7 @@ def main():
         stateless_mass(run, ck.rng('search', 'stateless'), 80, 40, coq=False)
         actions_mass(run, ck.rng('search', 'actions'), 150, coq=False)
         repeated_mass(run, ck.rng('search', 'repeated'), 150, coq=False)
+        dag_mass(run, ck.rng('search', 'dag'), 200, coq=False)
         run.cases = []
         stub_grid(run, ck.rng('search', 'stub'), 600)
         eve(run, ck.rng('search', 'eve'), 400, 0)
